@@ -154,6 +154,8 @@ class DFlags(Plugin):
             zp = fn.pnames.get(zn)
             if zp is not None and zp["ty"] == "i64":
                 s.pinned.add(zp["id"])
+        if "out" in fn.pnames:
+            s.pinned.add("&" + fn.pnames["out"]["id"])
         # (dirty, clr_first, clr_full, nul, last stored value, last loaded value, length of the string currently in dest if measured)
         return (False, False, False, False, None, None, None)
 
@@ -226,6 +228,15 @@ class DFlags(Plugin):
                 z = s.zero_test(ct, val)
                 if z is not None and (z == lst or z == lld):
                     return pl[:3] + (True,) + pl[4:]
+            return pl
+        if k == "indirect":
+            # the formatter's output callback out(character, buffer, idx, maxlen): a store of `character` into buffer (contract of out_fct_type)
+            args = ev[1]
+            if len(args) == 4 and s.is_dest(args[1]):
+                c = eng.as_lin(args[0]) if args[0][0] == "i" else None
+                if c is not None and c.is_const() and c.c == 0:
+                    return pl[:3] + (True,) + pl[4:]
+                return (True, False, False, False) + pl[4:]
             return pl
         if k == "leave" and ev[1].name in ("_strnlen_s_chk", "_wcsnlen_s_chk") and ev[2] is not None:
             i, fr = ev[3], ev[4]
